@@ -82,9 +82,14 @@ impl Input for str {
     }
 
     /// Slicing for string works by taking a byte position of range.start and
-    /// slicing by a range.end-range.start chars.
+    /// slicing by a range.end-range.start chars. A start inside of a
+    /// multi-byte char is moved back to the start of that char.
     #[inline]
-    fn slice(&self, range: Range<usize>) -> &<Self as Index<Range<usize>>>::Output {
+    fn slice(&self, mut range: Range<usize>) -> &<Self as Index<Range<usize>>>::Output {
+        while !self.is_char_boundary(range.start) {
+            range.start -= 1;
+            range.end -= 1;
+        }
         &self[range.start
             ..range.start
                 + self[range.start..]
